@@ -27,7 +27,7 @@ RULE = ("one case = a generated module program: 1-3 source signals (Python float
         "double sensitivity, print_timing under clock jumps, permuted sig_in/sig_out; distinct = distinct abstract traces "
         "(module types in execution order, nesting, slice kinds, per-cycle seed pattern); non-trivial = the DAG has fan-out or a "
         "shared/sliced signal or more than one cycle")
-PROBES = ["same_object_for_two_inputs", "signal_used_twice", "output_into_slice", "nested_depth2", "unseeded_branch_skipped",
+PROBES = ["matrix_signal_dyad_sensitivity", "same_object_for_two_inputs", "signal_used_twice", "output_into_slice", "nested_depth2", "unseeded_branch_skipped",
           "second_sensitivity_without_reset", "fan_out", "index_array_input", "python_float_signal", "keep_alloc_source",
           "none_block", "order_differs_from_creation", "complex_program", "intermediate_seeded", "partial_seed_multi_output"]
 FAULT_KINDS = ["clock_jump", "set_order_permutation"]
@@ -120,7 +120,34 @@ def _define_modules():
         def _sensitivity(self, dy):
             return dy, dy
 
-    H.update(Affine=Affine, Elt=Elt, Prod=Prod, Sum2=Sum2)
+    class DiagMat(Module):
+        """ K = diag(x): matrix-valued signal; the incoming sensitivity is an ndarray or a DyadCarrier """
+        def _response(self, x):
+            return np.diag(np.asarray(x, dtype=float))
+
+        def _sensitivity(self, dK):
+            return np.asarray(dK.diagonal()).copy()
+
+    class AddMat(Module):
+        """ Z = A + B; hands the SAME sensitivity object (ndarray or DyadCarrier) to both inputs """
+        def _response(self, A, B):
+            return A + B
+
+        def _sensitivity(self, dZ):
+            return dZ, dZ
+
+    class Bilin(Module):
+        """ g = u^T M v; its matrix sensitivity is a DyadCarrier (the container type LinSolve/EigenSolve produce) """
+        def _prepare(self, u=None, v=None):
+            self.u, self.v = u, v
+
+        def _response(self, M):
+            return float(self.u @ M @ self.v)
+
+        def _sensitivity(self, dg):
+            return pym.DyadCarrier(self.u * dg, self.v)
+
+    H.update(Affine=Affine, Elt=Elt, Prod=Prod, Sum2=Sum2, DiagMat=DiagMat, AddMat=AddMat, Bilin=Bilin)
 
 
 # ------------------------------------------------------------------------------------------------ generation
@@ -133,10 +160,11 @@ def gen(rng, idx, tier):
         shape = "float" if (r < 0.15 and not cplx) else ([2, 2] if r < 0.3 else [int(rng.integers(1, 5))])
         sources.append(dict(shape=shape, keep_alloc=bool(rng.random() < 0.2 and shape != "float")))
     nbuf = int(rng.integers(0, 3))
+    matrix_flavour = bool(rng.random() < 0.3) and not cplx      # matrix-valued signals with DyadCarrier sensitivities
     mods = []
     for _ in range(int(rng.integers(1, 9))):
-        t = str(rng.choice(["affine", "affine", "affine", "elt", "prod", "sum2"]))
-        nin = int(rng.integers(1, 4)) if t == "affine" else (1 if t == "elt" else 2)
+        t = str(rng.choice(["affine", "affine", "affine", "elt", "prod", "sum2"] + (["diagmat", "diagmat", "addmat", "bilin", "bilin"] if matrix_flavour else [])))
+        nin = int(rng.integers(1, 4)) if t == "affine" else (1 if t in ("elt", "diagmat", "bilin") else 2)
         nout = int(rng.integers(1, 3)) if t == "affine" else 1
         mods.append(dict(type=t, seed=int(rng.integers(1 << 30)),
                          ins=[dict(ref=int(rng.integers(0, 64)),
@@ -244,6 +272,7 @@ def build(case):
     buf_views_added = set()
 
     mods = []       # dict(mod, type, ins=[View], outs=[View], jac=callable(xs)->blocks)
+    mviews = []     # matrix-valued views (consumed only by AddMat / Bilin: container sensitivities do not mix with ndarrays)
     for mi, m in enumerate(case["mods"]):
         rng = sub_rng(0x20, m["seed"])
         ins = []
@@ -259,6 +288,57 @@ def build(case):
                     probe("index_array_input")
             ins.append(v)
         t = m["type"]
+        if t in ("diagmat", "addmat", "bilin"):
+            # matrix world: DiagMat (vector -> matrix), AddMat (matrix, matrix -> matrix), Bilin (matrix -> scalar)
+            done = False
+            if t == "diagmat":
+                v = ins[0]
+                if v.shape != "float" and len(v.shape) == 1 and v.size <= 3:
+                    n_ = v.size
+                    sig = Signal(f"m{mi}K")
+                    bases.append(dict(sig=sig, size=n_ * n_, shape=(n_, n_), kind="out", keep=False, mat=True))
+                    ov = View(sig, len(bases) - 1, np.arange(n_ * n_), (n_, n_), kinds=("mat",))
+                    mod = H["DiagMat"](v.sig, sig)
+                    Jd = np.zeros((n_ * n_, n_))
+                    for q in range(n_):
+                        Jd[q * n_ + q, q] = 1.0
+                    mods.append(dict(mod=mod, type=t, ins=[v], outs=[ov], jac=lambda xs, Jd=Jd: [[Jd]],
+                                     fwd=lambda xs, Jd=Jd: [Jd @ xs[0]]))
+                    mviews.append(ov)
+                    probe("matrix_signal_dyad_sensitivity")
+                    done = True
+            elif t == "addmat" and mviews:
+                a = mviews[m["ins"][0]["ref"] % len(mviews)]
+                b = next((c for off in range(len(mviews)) for c in [mviews[(m["ins"][1]["ref"] + off) % len(mviews)]]
+                          if c.shape == a.shape), a)
+                sig = Signal(f"m{mi}Z")
+                bases.append(dict(sig=sig, size=a.size, shape=a.shape, kind="out", keep=False, mat=True))
+                ov = View(sig, len(bases) - 1, np.arange(a.size), a.shape, kinds=("mat",))
+                mod = H["AddMat"]([a.sig, b.sig], sig)
+                I_ = np.eye(a.size)
+                mods.append(dict(mod=mod, type=t, ins=[a, b], outs=[ov], jac=lambda xs, I_=I_: [[I_, I_]],
+                                 fwd=lambda xs: [xs[0] + xs[1]]))
+                mviews.append(ov)
+                probe("same_object_for_two_inputs")
+                if a is b:
+                    probe("signal_used_twice")
+                done = True
+            elif t == "bilin" and mviews:
+                a = mviews[m["ins"][0]["ref"] % len(mviews)]
+                n_ = a.shape[0]
+                u_, v_ = rng.uniform(-1, 1, n_), rng.uniform(-1, 1, n_)
+                sig = Signal(f"m{mi}g", state=0.0)
+                bases.append(dict(sig=sig, size=1, shape="float", kind="out", keep=False))
+                ov = View(sig, len(bases) - 1, np.arange(1), "float")
+                mod = H["Bilin"](a.sig, sig, u=u_, v=v_)
+                Jb = np.outer(u_, v_).reshape(1, -1)
+                mods.append(dict(mod=mod, type=t, ins=[a], outs=[ov], jac=lambda xs, Jb=Jb: [[Jb]],
+                                 fwd=lambda xs, Jb=Jb: [Jb @ xs[0]]))
+                views.append(ov)
+                done = True
+            if done:
+                continue
+            t = "elt"
         if t in ("prod", "sum2"):
             a = ins[0]
             partner = None
@@ -548,7 +628,7 @@ def run(case):
         # choose seeded signals among the module outputs, seeded through the very signal object the module writes to
         # (for an output into a slice that is the SignalSlice: entries of a buffer that no module owns are not part of the
         # network, and resetting a slice clears only its own entries)
-        cands = [o for m in mods for o in m["outs"] if o.sig.state is not None]
+        cands = [o for m in mods for o in m["outs"] if o.sig.state is not None and "mat" not in o.kinds]
         seeded = {}      # key: index into cands
         wr = sub_rng(0x25, op["wseed"])
         if cands and not op.get("sens_without_seed"):
@@ -641,6 +721,8 @@ def run(case):
         left = None
         for s in all_signals():
             g = s.sensitivity
+            if g is not None and hasattr(g, "todense") and not isinstance(g, np.ndarray):
+                g = g.todense()
             if g is not None and np.any(np.asarray(g) != 0):
                 left = s
                 break
